@@ -49,6 +49,11 @@ def generate(ctx):
         if pre is not None:
             for m in ('all', 'array', 'mixed'):
                 ids[m + '_pre'] = ctx.add('select@%s %s %s %s' % (pre.hex(), e, p, m)).id
+        # a path may be written without its leading `$`: same items in every mode
+        if p.startswith('R;') and r.random() < 0.3:
+            for m in ('all', 'first', 'array', 'mixed'):
+                ids[m + '_unrooted'] = ctx.add('select %s %s %s' % (e, p[2:], m)).id
+            ids['pe_unrooted'] = ctx.add('path_exists %s %s' % (e, p[2:])).id
         # the convenience functions also accept the document as JSON TEXT: same answers (a seeded change gave `$` a fast path
         # that returned the text itself)
         if gen.is_finite(v) and gen.text_form(v) == v and (p == 'R' or r.random() < 0.5):
@@ -97,6 +102,12 @@ def judge(ctx):
             if not all(o[m].startswith('err') for m in ('first', 'array', 'mixed')):
                 ctx.violate('modes disagree on success/error', case=case, observed=o)
             continue
+        for k in ('all', 'first', 'array', 'mixed', 'pe'):
+            if k + '_unrooted' in o:
+                ctx.count('paths_without_the_leading_root', k)
+                if o[k + '_unrooted'] != o[k]:
+                    ctx.violate('a path written without its leading `$` does not give what its `$` twin gives', case=case, mode=k,
+                                observed={'rooted': o[k][:300], 'unrooted': o[k + '_unrooted'][:300]})
         for k in ('g', 'gf', 'ga', 'pe', 'pmatch'):
             if k + '_text' in o:
                 ctx.count('convenience_functions_on_json_text', k)
